@@ -121,7 +121,16 @@ def inverse_params(fwd_family, p, rng):
     raise ValueError(fwd_family)
 
 
-def _wave_arg(w, inverse):
+def _wave_arg(w, inverse, given=None):
+    """`given` collects (array, bytes at hand-over) for every ndarray handed
+    to the constructor, so the caller can check they come back untouched."""
+    r = _wave_arg0(w, inverse)
+    if isinstance(r, tuple) and given is not None:
+        given.extend((a, a.tobytes()) for a in r)
+    return r
+
+
+def _wave_arg0(w, inverse):
     import pywt
     kind = w["kind"]
     if kind == "name":
@@ -137,29 +146,33 @@ def _wave_arg(w, inverse):
     return (np.array(lo), np.array(hi), np.array(lo2), np.array(hi2))
 
 
-def build(family, p):
+def build(family, p, given=None):
     """Run the library constructor for (family, params)."""
     L = env.lib()
     pw = L.pw
     if family == "dwt1f":
-        return pw.DWT1DForward(J=p["J"], wave=_wave_arg(p["wave"], False), mode=p["mode"])
+        return pw.DWT1DForward(J=p["J"], wave=_wave_arg(p["wave"], False, given), mode=p["mode"])
     if family == "dwt1i":
-        return pw.DWT1DInverse(wave=_wave_arg(p["wave"], True), mode=p["mode"])
+        return pw.DWT1DInverse(wave=_wave_arg(p["wave"], True, given), mode=p["mode"])
     if family == "dwt2f":
-        return pw.DWTForward(J=p["J"], wave=_wave_arg(p["wave"], False), mode=p["mode"])
+        return pw.DWTForward(J=p["J"], wave=_wave_arg(p["wave"], False, given), mode=p["mode"])
     if family == "dwt2i":
-        return pw.DWTInverse(wave=_wave_arg(p["wave"], True), mode=p["mode"])
+        return pw.DWTInverse(wave=_wave_arg(p["wave"], True, given), mode=p["mode"])
     if family == "swt":
-        return L.dwt_t2.SWTForward(J=p["J"], wave=_wave_arg(p["wave"], False), mode=p["mode"])
+        return L.dwt_t2.SWTForward(J=p["J"], wave=_wave_arg(p["wave"], False, given), mode=p["mode"])
     if family in ("dtf", "dti"):
         biort, qshift = p["biort"], p["qshift"]
         inv = family == "dti"
         if p.get("biort_tuple"):
-            t = L.coeffs.biort(biort)
+            t = [a.copy() for a in L.coeffs.biort(biort)]
             biort = (t[1], t[3]) if inv else (t[0], t[2])
+            if given is not None:
+                given.extend((a, a.tobytes()) for a in biort)
         if p.get("qshift_tuple"):
-            t = L.coeffs.qshift(qshift)
+            t = [a.copy() for a in L.coeffs.qshift(qshift)]
             qshift = (t[2], t[3], t[6], t[7]) if inv else (t[0], t[1], t[4], t[5])
+            if given is not None:
+                given.extend((a, a.tobytes()) for a in qshift)
         if inv:
             return pw.DTCWTInverse(biort=biort, qshift=qshift, o_dim=p["o_dim"],
                                    ri_dim=p["ri_dim"], mode=p["mode"])
